@@ -14,7 +14,8 @@ Clauses(e) ==
          (IF ~IsBits(e.out) THEN {"not-binary"} ELSE {}) \cup
          (IF e.out # Encode(e.bits, e.M) THEN {"encoder-output"} ELSE {}) \cup
          (IF ~IsCodeword(e.out, e.M) THEN {"one-hot"} ELSE {})
-    [] e.kind = "dec" -> IF e.out # Decode(e.slots, e.M) THEN {"decoder-output"} ELSE {}
+    [] e.kind = "dec" -> IF ~IsCodeword(e.slots, e.M) THEN {"encoder-output-not-a-codeword"}
+                         ELSE IF e.out # Decode(e.slots, e.M) THEN {"decoder-output"} ELSE {}
     [] e.kind = "rt"  -> IF e.out # Truncate(e.bits, e.M) THEN {"round-trip"} ELSE {}
     [] e.kind = "hdd" -> (IF ~HddAllowed(e.in, e.out, e.M) THEN {"hdd-relation"} ELSE {}) \cup
                          (IF IsCodeword(e.in, e.M) /\ e.out # e.in THEN {"hdd-identity"} ELSE {})
